@@ -38,7 +38,8 @@ fn gen_case(s: &mut Src) -> Case {
     let v = match v { V::Ref(n, g) if n < 64 => V::Ref(n + 1000, g), v => v };
     let kind = match &v { V::Int(_) => "v_int", V::Real(_) => "v_real", V::Ref(..) => "v_ref", V::Name(_) => "v_name", V::Bool(_) | V::Null => "v_keyword", V::Str(_) => "v_string", V::Arr(_) => "v_array", V::Dict(_) => "v_dict" };
     if kind != "v_int" { s.label(kind); }
-    let n_members = 1 + s.draw(4) as usize;
+    // a handful of members most of the time; now and then hundreds or thousands (object streams of real files hold up to a few thousand)
+    let n_members = if s.alt(30, &["few_members", "many_members"]) == 1 { *s.pick(&[100usize, 255, 256, 257, 511, 512, 513, 1023, 1024, 1025, 1026, 2000, 4095, 4096, 4097]) } else { 1 + s.draw(4) as usize };
     let position = if n_members == 1 { 2 } else { s.alt(1, &["pos_first", "pos_middle", "pos_last"]) as u8 };
     // members may also follow each other without any white-space: the offsets in the header delimit them
     let trailing_ws = match s.alt(2, &["trailing_ws", "no_trailing_ws", "members_not_separated"]) { 0 => 0u8, 1 => 1, _ => 2 };
@@ -183,7 +184,7 @@ pub fn replay(prefix: &str, tape: &[u32], _params: &Value) -> Option<Option<(Str
 }
 
 pub fn run(run: &Run) {
-    run.rule("twin documents per value (every Primitive kind incl. integers, reals, names, null, booleans, references, nested containers): stored as ordinary indirect object vs member of an object stream at first/middle/last position, with/without trailing white-space, /First tight or padded, object stream unfiltered or with 1-2 filters from {ASCIIHex, ASCII85, RunLength, LZW, Flate}; plus a stream whose /Length is direct, a reference to a direct integer, or to an integer inside an object stream. resolve() must agree between twins and with the written value; Stream::data/raw_data with the written bytes. 4 configurations. distinct_nontrivial = distinct compressed-twin files");
+    run.rule("twin documents per value (every Primitive kind incl. integers, reals, names, null, booleans, references, nested containers): stored as ordinary indirect object vs member of an object stream of 1-5 members (one case in 31: 100 to 4097 members) at first/middle/last position, with/without trailing white-space, /First tight or padded, object stream unfiltered or with 1-2 filters from {ASCIIHex, ASCII85, RunLength, LZW, Flate}; plus a stream whose /Length is direct, a reference to a direct integer, or to an integer inside an object stream. resolve() must agree between twins and with the written value; Stream::data/raw_data with the written bytes. 4 configurations. distinct_nontrivial = distinct compressed-twin files");
     run.assume("object-stream filters are encoded by the reference encoders of C05; values printed in the plain spelling");
     let n = run.n(40_000, 2_000_000);
     par_for(n, |i| {
